@@ -105,7 +105,7 @@ def gen_input(rng, quick, big=False, kind=None, M=None, dtype="random"):
         pass
     elif big:
         M = rng.choice([2, 3])
-    elif meth == "welch" or not quick:
+    elif meth == "welch":
         M = rng.choice([2, 3, 3, 4, 5])
     else:
         M = rng.choice([2, 3, 3, 4])
@@ -1020,7 +1020,7 @@ def run(ctx):
         gram_bad += b
         for entry, coq in k_cases(R):
             cases.append(Case("(" + coq + ")", {"input": d, "entry": entry}, klass(d, entry)))
-    bad = ctx.check_cases("K", HEADER, cases, "check", shard=ctx.scale(3, 8), timeout=1500, case_type="case")
+    bad = ctx.check_cases("K", HEADER, cases, "check", shard=ctx.scale(3, 4), timeout=ctx.scale(1500, 3600), case_type="case")
     bad_inputs = {}
     for i in bad:
         c = cases[i]
